@@ -6,11 +6,14 @@ import Glom.Model.C02
   operations; evaluating it means applying that chain, left to right, directly
   to the target (`pyApply`: the operation *the dunder denotes* in Python's data
   model — `__floordiv__` is `//`, `__pow__` is `**` …), every argument being
-  first evaluated against the ORIGINAL target when it is a T / Spec(T) (or a
-  list / tuple / dict containing one) and taken literally otherwise.  The first
-  operation that fails ends the evaluation: a failing attribute / item /
-  arithmetic step is reported with its position, a failing call keeps the
-  exception of the called function.
+  evaluated — when its operation is reached, not before — against the ORIGINAL
+  target object in its current state when it is a T / Spec(T) (or a list /
+  tuple / dict containing one) and taken literally otherwise.  Operations may
+  change the target (`T['l'].pop()`): everything threads a state and returns
+  the state it leaves, so "the same chain applied directly" also says what the
+  target looks like afterwards.  The first operation that fails ends the
+  evaluation: a failing attribute / item / arithmetic step is reported with its
+  position, a failing call keeps the exception of the called function.
 
   Nothing here mentions op characters, the flat tuple, or `_t_eval`'s branch table.
 -/
@@ -36,14 +39,22 @@ def requiredDunders : List String :=
   ["__getattr__", "__getitem__", "__call__", "__add__", "__sub__", "__mul__", "__floordiv__",
    "__truediv__", "__mod__", "__pow__", "__and__", "__or__", "__xor__", "__invert__", "__neg__"]
 
-/-- apply the Python operation directly; `none`: not an operation of the C02 fragment -/
-def pyApply {V} (prim : Prim V) (kind : Kind) (cur : V) (av : AV V) : Option (Except PyExc V) :=
+/-- apply the Python operation directly, in state `s`; `none`: not an operation of
+    the C02 fragment.  A call passes its `list` / `tuple` / `dict` arguments by
+    value (`passCall`; see `c02_call_by_value_counterexample` for why the
+    property cannot be stated without it). -/
+def pyApply {V S} (prim : Prim V S) (kind : Kind) (s : S) (cur : V) (av : AV V) :
+    Option (Except PyExc V × S) :=
   match kind, av with
-  | .getattr, .val a => some (prim.getattr cur a)
-  | .getitem, .val a => some (prim.getitem cur a)
-  | .bin b, .val a => some (prim.bin b cur a)
-  | .un u, .val _ => some (prim.un u cur)
-  | .call, .call args kwargs => some (prim.call cur args kwargs)
+  | .getattr, .val a => some (prim.getattr s cur a)
+  | .getitem, .val a => some (prim.getitem s cur a)
+  | .bin b, .val a => some (prim.bin b s cur a)
+  | .un u, .val _ => some (prim.un u s cur)
+  | .call, .call args kwargs =>
+    some (prim.call (prim.passCall s cur args kwargs).2
+      (prim.passCall s cur args kwargs).1.1
+      (prim.passCall s cur args kwargs).1.2.1
+      (prim.passCall s cur args kwargs).1.2.2)
   | _, _ => none
 
 inductive RefErr where
@@ -52,21 +63,23 @@ inductive RefErr where
   | unsupported
   deriving DecidableEq, Repr
 
-/-- apply the operations left to right; `k` is the position of the head -/
-def foldSteps {V} (prim : Prim V) :
-    List (Option Kind × Except RefErr (AV V)) → Nat → V → Except RefErr V
-  | [], _, cur => .ok cur
-  | (kind?, ra) :: rest, k, cur =>
-    match ra with
-    | .error e => .error e
-    | .ok av =>
+/-- apply the operations left to right; `k` is the position of the head.  The
+    argument of an operation is evaluated when the operation is reached, in the
+    state the earlier operations left. -/
+def foldSteps {V S} (prim : Prim V S) :
+    List (Option Kind × Run S RefErr (AV V)) → Nat → S → V → Except RefErr V × S
+  | [], _, s, cur => (.ok cur, s)
+  | (kind?, ra) :: rest, k, s, cur =>
+    match ra s with
+    | (.error e, s1) => (.error e, s1)
+    | (.ok av, s1) =>
       match kind? with
-      | none => .error .unsupported
+      | none => (.error .unsupported, s1)
       | some kind =>
-        match pyApply prim kind cur av with
-        | none => .error .unsupported
-        | some (.ok v) => foldSteps prim rest (k + 1) v
-        | some (.error e) => .error (.opFail k kind e)
+        match pyApply prim kind s1 cur av with
+        | none => (.error .unsupported, s1)
+        | some (.ok v, s2) => foldSteps prim rest (k + 1) s2 v
+        | some (.error e, s2) => (.error (.opFail k kind e), s2)
 
 def refVal1 {V} (r : Except RefErr (AV V)) : Except RefErr V :=
   match r with
@@ -74,60 +87,76 @@ def refVal1 {V} (r : Except RefErr (AV V)) : Except RefErr V :=
   | .ok (.call _ _) => .error .unsupported
   | .error e => .error e
 
-def refKw {V} (k : String) (r : Except RefErr (AV V)) : Except RefErr (String × V) :=
-  match refVal1 r with
-  | .ok v => .ok (k, v)
-  | .error e => .error e
+def refValRun {V S} (f : Run S RefErr (AV V)) : Run S RefErr V :=
+  fun s => (refVal1 (f s).1, (f s).2)
 
-def refVals {V} (rs : List (Except RefErr (AV V))) : Except RefErr (List V) :=
-  seqAll (rs.map refVal1)
+def refKwRun {V S} (k : String) (f : Run S RefErr (AV V)) : Run S RefErr (String × V) :=
+  fun s => (match refVal1 (f s).1 with
+    | .ok v => .ok (k, v)
+    | .error e => .error e, (f s).2)
 
-/-- the value of an argument expression, for the target `target` -/
-def refArg {V} (prim : Prim V) (target : V) : E V → Except RefErr (AV V)
-  | .lit v => .ok (.val v)
-  | .texpr steps =>
-    -- every argument is evaluated against the original target; then the chain is applied to it
-    match foldSteps prim (steps.map (fun s =>
-        (meaning s.1, if arglessDunders.contains s.1 then .ok (.val prim.none)
-                      else refArg prim target s.2))) 0 target with
-    | .ok v => .ok (.val v)
-    | .error e => .error e
+def refVals {V S} (rs : List (Run S RefErr (AV V))) : Run S RefErr (List V) :=
+  seqRun (rs.map refValRun)
+
+/-- one entry of a dict display `{k: v, …}`: the key, the value, then the key is hashed -/
+def refEntryRun {V S} (prim : Prim V S) (k v : Run S RefErr V) : Run S RefErr (V × V) :=
+  fun s =>
+    match pairRun k v s with
+    | (.error e, s1) => (.error e, s1)
+    | (.ok kv, s1) =>
+      match (prim.hashKey s1 kv.1).1 with
+      | .ok _ => (.ok kv, (prim.hashKey s1 kv.1).2)
+      | .error e => (.error (.raised e), (prim.hashKey s1 kv.1).2)
+
+/-- the value of an argument expression, for the target object `target`, evaluated
+    in the state current when it is run -/
+def refArg {V S} (prim : Prim V S) (target : V) : E V → Run S RefErr (AV V)
+  | .lit v => fun s => (.ok (.val v), s)
+  | .texpr steps => fun s =>
+    -- the chain is applied to the target object as it is now; each argument is
+    -- evaluated against the target object when its operation is reached
+    match foldSteps prim (steps.map (fun st =>
+        (meaning st.1, if arglessDunders.contains st.1 then (fun s => (.ok (.val prim.none), s))
+                       else refArg prim target st.2))) 0 s target with
+    | (.ok v, s1) => (.ok (.val v), s1)
+    | (.error e, s1) => (.error e, s1)
   | .spec e =>
     match e with
     | .texpr steps => refArg prim target (.texpr steps)
-    | _ => .error .unsupported
-  | .list xs =>
-    match refVals (xs.map (fun x => refArg prim target x)) with
-    | .ok vs => .ok (.val (prim.mkList vs))
-    | .error e => .error e
-  | .tuple xs =>
-    match refVals (xs.map (fun x => refArg prim target x)) with
-    | .ok vs => .ok (.val (prim.mkTuple vs))
-    | .error e => .error e
-  | .dict es =>
-    match seqAll (es.map (fun p =>
-        pairUp (refVal1 (refArg prim target p.1)) (refVal1 (refArg prim target p.2)))) with
-    | .error e => .error e
-    | .ok kvs =>
-      match prim.mkDict kvs with
-      | .ok v => .ok (.val v)
-      | .error e => .error (.raised e)
-  | .cargs args kwargs =>
-    match refVals (args.map (fun x => refArg prim target x)) with
-    | .error e => .error e
-    | .ok as =>
-      match seqAll (kwargs.map (fun p => refKw p.1 (refArg prim target p.2))) with
-      | .ok ks => .ok (.call as ks)
-      | .error e => .error e
+    | _ => fun s => (.error .unsupported, s)
+  | .list xs => fun s =>
+    match refVals (xs.map (fun x => refArg prim target x)) s with
+    | (.ok vs, s1) => (.ok (.val (prim.mkList s1 vs).1), (prim.mkList s1 vs).2)
+    | (.error e, s1) => (.error e, s1)
+  | .tuple xs => fun s =>
+    match refVals (xs.map (fun x => refArg prim target x)) s with
+    | (.ok vs, s1) => (.ok (.val (prim.mkTuple s1 vs).1), (prim.mkTuple s1 vs).2)
+    | (.error e, s1) => (.error e, s1)
+  | .dict es => fun s =>
+    match seqRun (es.map (fun p =>
+        refEntryRun prim (refValRun (refArg prim target p.1)) (refValRun (refArg prim target p.2)))) s with
+    | (.error e, s1) => (.error e, s1)
+    | (.ok kvs, s1) =>
+      match (prim.mkDict s1 kvs).1 with
+      | .ok v => (.ok (.val v), (prim.mkDict s1 kvs).2)
+      | .error e => (.error (.raised e), (prim.mkDict s1 kvs).2)
+  | .cargs args kwargs => fun s =>
+    match refVals (args.map (fun x => refArg prim target x)) s with
+    | (.error e, s1) => (.error e, s1)
+    | (.ok as, s1) =>
+      match seqRun (kwargs.map (fun p => refKwRun p.1 (refArg prim target p.2))) s1 with
+      | (.ok ks, s2) => (.ok (.call as ks), s2)
+      | (.error e, s2) => (.error e, s2)
 termination_by e => sizeOf e
 decreasing_by all_goals nested_dec
 
-/-- what the chain of operations `e` yields when applied directly to `target` -/
-def refEval {V} (prim : Prim V) (e : E V) (target : V) : Except RefErr V :=
-  match refArg prim target e with
-  | .ok (.val v) => .ok v
-  | .ok (.call _ _) => .error .unsupported
-  | .error e => .error e
+/-- what the chain of operations `e` yields when applied directly to the target
+    object in state `s`, and the state it leaves -/
+def refEval {V S} (prim : Prim V S) (e : E V) (target : V) (s : S) : Except RefErr V × S :=
+  match refArg prim target e s with
+  | (.ok (.val v), s1) => (.ok v, s1)
+  | (.ok (.call _ _), s1) => (.error .unsupported, s1)
+  | (.error e, s1) => (.error e, s1)
 
 /-! ### which failures are PathAccessErrors -/
 
@@ -158,6 +187,11 @@ def outOf {α} (F : Facts) (r : Except RefErr α) : Except Err α :=
   | .ok v => .ok v
   | .error e => .error (errOf F e)
 
+/-- the same, with the state left -/
+def outS {α S} (F : Facts) (r : Except RefErr α × S) : Except Err α × S := (outOf F r.1, r.2)
+
+def outRun {α S} (F : Facts) (f : Run S RefErr α) : Run S Err α := fun s => outS F (f s)
+
 /-! ### the observation both the model and the implementation are reduced to -/
 
 inductive Obs (V : Type) where
@@ -180,7 +214,7 @@ def observe {V} (F : Facts) (r : Except Err V) : Obs V :=
     position and class; a failing call, or an undocumented class, keeps its
     class (for an undocumented class of a non-call step a PathAccessError at the
     right position is accepted as well). -/
-def checkObs {V} [BEq V] (r : Except RefErr V) (o : Obs V) : Bool :=
+def checkObs {W} [BEq W] (r : Except RefErr W) (o : Obs W) : Bool :=
   match r, o with
   | .ok v, .ok v' => v == v'
   | .error (.opFail k kind e), .pae k' c g => kind != .call && k == k' && c == e.cls && g
@@ -188,8 +222,28 @@ def checkObs {V} [BEq V] (r : Except RefErr V) (o : Obs V) : Bool :=
   | .error (.raised e), .other c => c == e.cls
   | _, _ => false
 
-def checkC02 {V} [BEq V] (prim : Prim V) (e : E V) (target : V) (o : Obs V) : Bool :=
-  checkObs (refEval prim e target) o
+/-- a value as an observer sees it in a given state (for the executable
+    instance: the tree the value denotes in the heap) -/
+abbrev View (V S W : Type) := S → V → W
+
+def viewRes {V S W ε} (view : View V S W) (r : Except ε V × S) : Except ε W :=
+  match r.1 with
+  | .ok v => .ok (view r.2 v)
+  | .error e => .error e
+
+/-- what is observed of a run of `_t_eval`: the outcome, and the target object
+    as it is afterwards -/
+def observeS {V S W} (F : Facts) (view : View V S W) (target : V) (r : Except Err V × S) :
+    Obs W × W :=
+  (observe F (viewRes view r), view r.2 target)
+
+/-- the property on an observation `(outcome, target afterwards)`: the outcome is
+    that of the chain applied directly, and the target object has been changed
+    in exactly the way the chain applied directly changes it -/
+def checkC02 {V S W} [BEq W] (view : View V S W) (prim : Prim V S) (e : E V) (target : V) (s : S)
+    (o : Obs W × W) : Bool :=
+  checkObs (viewRes view (refEval prim e target s)) o.1 &&
+    view (refEval prim e target s).2 target == o.2
 
 /-! ### well-formedness of the extracted facts -/
 
